@@ -37,6 +37,7 @@ var basic = map[reflect.Type]string{
 	reflect.TypeOf(uint16(0)):   "u16",
 	reflect.TypeOf(uint32(0)):   "u32",
 	reflect.TypeOf(uint64(0)):   "u64",
+	reflect.TypeOf(int8(0)):     "i8",
 	reflect.TypeOf(int16(0)):    "i16",
 	reflect.TypeOf(int32(0)):    "i32",
 	reflect.TypeOf(int64(0)):    "i64",
@@ -71,7 +72,7 @@ func fieldsOf(t reflect.Type) ([]Field, error) {
 		var tag uint64
 		if !inline {
 			var err error
-			tag, err = strconv.ParseUint(s, 10, 8)
+			tag, err = strconv.ParseUint(strings.Split(s, ",")[0], 10, 8) // options may follow the tag: `tlv8:"4,optional"`
 			if err != nil {
 				return nil, fmt.Errorf("%v.%s: unsupported tlv8 tag %q", t, f.Name, s)
 			}
